@@ -98,6 +98,14 @@ CHECKS["C15"] = {
     "design_ref": "DESIGN.md 2.3, 2.4, 3 (C15)",
 }
 
+CHECKS["C03"] = {
+    "engine": "K",
+    "technique": "deterministic simulation: evaluate_on_grid source under a seeded baton scheduler (thread count, partition, every store interleaving) driven through the real map() front-end + independent point-location oracle",
+    "text": "Seeded search over in-memory AMR tilings (2-D/3-D, 1-4 levels, holes) x origins x orientations (letters, triples, arbitrary/z=0/near-axis normals) x windows (1/50 of the smallest cell to 3x the domain, other units, dy != dx, or omitted) x resolutions x 1-3 layers (scalar, vector norm, vec/stream mode) x simulated schedules of the kernel. Every returned pixel centre is located independently in the original axes: exactly one containing cell -> unmasked and equal (vector layers: projections on u, v and in-plane magnitude); no cell -> masked; face band -> masked or any touching cell, component by component. The basis used is re-checked orthonormal with n parallel to the request. T=1 and scheduled runs must agree. Sampling, not proof.",
+    "note": "Trusted: CPython executing the kernel source stands for the compiled kernel (anchored: compiled T=1 == simulated T=1 bit for bit on a sample each batch); SC interleavings only; the check's own point location.",
+    "design_ref": "DESIGN.md 2.2, 3 (C03)",
+}
+
 PENDING_REASON = "check not built yet in this snapshot of /verif (planned and applicable, see DESIGN.md section 3); not claimed until its check exists"
 ALL = ["C%02d" % i for i in range(1, 21)]
 
